@@ -455,8 +455,16 @@ fn parse_command(
 
 	// Two groups writing to the same file would
 	// silently lose the output of the first one
+	// (nothing is written when only the help or version is asked for)
+	let writes_outputs =
+		!command.show_help &&
+		!command.show_version;
+
 	for i in 0..command.output_groups.len()
 	{
+		if !writes_outputs
+			{ break; }
+
 		for j in 0..i
 		{
 			let group_i = &command.output_groups[i];
